@@ -12,6 +12,7 @@ model, the property predicate is evaluated on the implementation's own wire trac
 and quiescent end state.
 """
 import hashlib
+import re
 import os
 
 from lib.verif import *
@@ -537,6 +538,11 @@ def slim(case, around=None):
     return c
 
 
+def silent_ms(case):
+    m = re.search(r"silent_ms=(\d+)", case.get("why") or "")
+    return int(m.group(1)) if m else 0
+
+
 def sp_variant(case):
     """'' for ordinary batches / directed scenarios / baselines, else flap|restart|restartflap|db"""
     return ((case.get("extra") or {}).get("sp") or {}).get("variant", "")
@@ -573,7 +579,7 @@ def run_switch_stage(ctx):
     and of the forwarder's switch) is run and ONLY the at-most-once clauses are evaluated.
     Coverage goes to ctx.cov["switch_stage"]; violations are reported on ctx (i.e. under C07)."""
     import shutil
-    puid = ctx.uid("_sw_p%d" % os.getpid())
+    puid = ctx.uid("_sw")
     env = {"VERIF_CASES": 12 if ctx.thorough else 3, "VERIF_C08_SP": 60 if ctx.thorough else 6}
     rc, trace, out = run_harness(puid, "htlcswitch", HARNESS, "^TestVerifThreeHop$", env=env, timeout=2400)
     rows = read_jsonl(trace)
@@ -641,17 +647,14 @@ def run(ctx):
     # (mock.go EncryptFirstHop writes o.failure), which the detector flags on any two concurrent fails.
     race = bool(os.environ.get("VERIF_C08_RACE"))
     # per-process names: concurrent `./check C08` runs must not share the trace / overlay / case files
-    puid = ctx.uid("_p%d" % os.getpid())
+    puid = ctx.uid()
     rc, trace, out = run_harness(puid, "htlcswitch", HARNESS, "^TestVerifThreeHop$",
                                  env=env, timeout=2400, race=race)
     rows = read_jsonl(trace)
     import shutil
     shutil.rmtree(os.path.join(os.path.dirname(trace), "overlay", puid), ignore_errors=True)
-    if rc == 0 and rows and not os.environ.get("VERIF_C08_KEEP"):
-        try:
-            os.remove(trace)
-        except OSError:
-            pass
+    if os.environ.get("VERIF_C08_KEEP"):     # debugging: the lib removes a clean run's scratch files
+        shutil.copyfile(trace, os.environ["VERIF_C08_KEEP"])
     if rc != 0 or not rows:
         ctx.violation("harness_failed", "TestVerifThreeHop", {"log": out[-6000:]},
                       signature="harness", failing_input=False)
@@ -669,7 +672,7 @@ def run(ctx):
                               signature="threehop %s" % f[0][1][:60])
         elif stuck:
             lost = packet_lost_at_link_stop(c)
-            if sp_variant(c):
+            if sp_variant(c) and not c["quiescent"] and silent_ms(c) >= 2500:
                 # a tiny deterministic scenario with ONE fault and generous timeouts: not resolving is
                 # the "nothing is left dangling" clause itself
                 ctx.violation("impl_violates_predicate", "C08_quiescent_balance",
